@@ -696,6 +696,21 @@ class ConstraintsIntersection(AbstractConstraintSet):
         for constraint in self._values:
             constraint(value, idx)
 
+    # Adding a constraint to an intersection narrows it: remember what
+    # the result was derived from so that it is recognised as a subtype
+
+    def __add__(self, value):
+        derived = AbstractConstraintSet.__add__(self, value)
+        derived._valueMap.add(self)
+        derived._valueMap.update(self._valueMap)
+        return derived
+
+    def __radd__(self, value):
+        derived = AbstractConstraintSet.__radd__(self, value)
+        derived._valueMap.add(self)
+        derived._valueMap.update(self._valueMap)
+        return derived
+
 
 class ConstraintsUnion(AbstractConstraintSet):
     """Create a ConstraintsUnion logic operator object.
